@@ -814,6 +814,9 @@ def bool_branch(body, start_block, local):
             return None
         if t['k'] == 'goto':
             b = t['target']
+        elif t['k'] == 'drop' and (op_place({'cp': t['place']}) or {}).get('l') not in pos:
+            # dropping another value (a guard going out of scope at the end of a helper) does not change the bool
+            b = t['target']
         elif t['k'] in ('call', 'drop', 'assert') and b != start_block:
             # allow intervening pure calls (e.g. is_ok on a reference) only through call_bool_branch
             return None
